@@ -675,7 +675,7 @@ func runC16(c *Ctx) {
 			c16Topology(c, 2000+i, f.total, f.steps, f.fu, false)
 		}
 	}
-	nSeq := c.Pick(12, 300)
+	nSeq := c.Pick(32, 300)
 	for i := 0; i < nSeq; i++ {
 		j := next()
 		if !c.Mine(j) {
@@ -713,7 +713,7 @@ func runC16(c *Ctx) {
 		}
 	}
 	faults := []string{"kill-pooled", "kill-host", "kill-control", "kill-all", "mute-pooled", "mute-control"}
-	for i := 0; i < c.Pick(12, 240); i++ {
+	for i := 0; i < c.Pick(24, 240); i++ {
 		if j := next(); c.Mine(j) {
 			c16Heal(c, i, 1+i%4, 1+(i/4)%2, faults[i%len(faults)])
 		}
